@@ -170,6 +170,12 @@ def tasks(tier, seed):
             out[f"step/{lab}/e{e}m{m}"] = Task(_step_task(dict(bnd=mixed, eps=e, mu=m, sigE=se, sigH=sh, sources=ss)), max_paths=256)
     for a in [((None, None),) * 3, (("periodic", "periodic"),) * 3, (("pec", "pec"), ("pmc", "pmc"), ("pec", "pmc"))]:
         out[f"step/nosrc/{K.bnd_label(a)}"] = Task(_step_task(dict(bnd=a, eps=3, mu=1, sigE=1, sigH=None)))
+    # complex incident profiles (e.g. the eigenmode of a lossy waveguide): the injected value is built from
+    # Re/Im of the profile and two quadrature amplitudes and must be real in both storage modes
+    for ss in (src_sets[1], src_sets[2]):
+        lab = "+".join("_".join(str(x) for x in s_) for s_ in ss)
+        for e, m, se, sh in [(3, 3, 3, 3), (9, 9, None, None)] if tier == "thorough" or ss is src_sets[1] else [(1, "scalar", None, None)]:
+            out[f"step/{lab}/complex_profile/e{e}m{m}"] = Task(_step_task(dict(bnd=mixed, eps=e, mu=m, sigE=se, sigH=sh, sources=ss, complex_profile=True)), max_paths=256)
     out["step/nonuniform"] = Task(_step_task(dict(bnd=mixed, eps=3, mu=3, sigE=3, sigH=None, nonuniform=True, sources=src_sets[1])), max_paths=256)
     out["detector/field"] = Task(_detector_task("field", {}))
     out["detector/phasor"] = Task(_detector_task("phasor", {}))
